@@ -5,6 +5,7 @@ package vfapi
 // implementation: values come from the solver model in $VF_MODEL.
 
 import (
+	"runtime"
 	"encoding/json"
 	"fmt"
 	"os"
@@ -205,3 +206,12 @@ var vfHooks = map[string]func(f interface{}){}
 
 // vfIsConcrete reports whether every byte is a concrete value (always true natively).
 func vfIsConcrete(b []byte) bool { return true }
+
+func vfGosched() { runtime.Gosched() }
+
+// vfWaitFor blocks until cond holds (engine: a blocked goroutine whose readiness is the condition).
+func vfWaitFor(cond func() bool) {
+	for !cond() {
+		vfGosched()
+	}
+}
